@@ -810,7 +810,8 @@ func (c *stepCheck) viol(p, clause, disc, format string, a ...any) {
 	if !c.want(p) {
 		return
 	}
-	c.out.Violations = append(c.out.Violations, Violation{Prop: p, Clause: clause, Disc: disc, Msg: fmt.Sprintf(format, a...)})
+	// (labels such as "not started" are part of some discriminators: no spaces in a signature)
+	c.out.Violations = append(c.out.Violations, Violation{Prop: p, Clause: clause, Disc: strings.ReplaceAll(disc, " ", "-"), Msg: fmt.Sprintf(format, a...)})
 }
 
 func nodeLabel(n *model.Node) string { return n.Status.String() }
